@@ -26,7 +26,10 @@ TRUSTED = ["tools/props/c10.py translate(): regex extraction of SEND_BLOCK_SIZE 
 ASSUMPTIONS = ["send() on a blocking socket accepts a non-empty prefix of the buffer or fails; read() returns a non-empty prefix of "
                "what the peer sent, or 0 at EOF (the partial-transfer schedules of partial_io_complete)",
                "FIONREAD reports between 1 and all of the unread bytes when some are queued (Inp.available)",
-               "TCP delivers the bytes of a connection in order, without loss or duplication",
+               "TCP delivers the bytes of a connection in order, without loss or duplication — except after the server gives a "
+               "connection up with unread input (refused framing): the reset TCP then sends may destroy answers the peer has not yet "
+               "read; the model says what the server wrote, and refused framing is generated only where nothing is pending (sequential "
+               "raw peers without Expect)",
                "timing: every byte of a message arrives within the library's waits (Socket::readLine waitInput 60 s, readBody waitInput "
                "10 s per turn, serve() waitData 5 s) and a kept-alive connection is used for less than 10 s in total: HttpServer::serve "
                "loops while now() - t1 < 10.0 with t1 taken once at accept, so the server closes every persistent connection 10 s after "
@@ -34,8 +37,8 @@ ASSUMPTIONS = ["send() on a blocking socket accepts a non-empty prefix of the bu
                "bytes that will arrive, then EOF",
                "toupper/tolower/isspace in the C locale act on ASCII only",
                "String(int), %x, %i, %lli print canonical decimal / lower-case hex; myatoi and strtoul(.,16) read them back "
-               "(atoi_utoa, hexToInt_hexLower are theorems about the modelled functions); chunk-size lines with a sign (strtoul accepts "
-               "'-') are outside the modelled domain",
+               "(atoi_utoa, hexToInt_hexLower are theorems about the modelled functions); chunk-size lines that are not 1 to 8 hex "
+               "digits (then blanks, CR or ';') with a value up to 0x7fffffff are refused by the repaired reader (chunkLineValid)",
                "a handler thread touches only its own connection's Socket/HttpRequest/HttpResponse and the block buffers that are locals "
                "of readBody/writeFile: this is what the model's atomic per-connection turns (Server := Nat -> Conn) assume; it is checked "
                "on the real library by the par and dl oracles, not proved (the shared client counter is C14's)"]
@@ -319,7 +322,7 @@ def rchunks(rng):
         return "ch" + ",".join(str(rng.randrange(1, 5000)) for _ in range(rng.randrange(1, 4)))
     if r < 0.8:
         return "ch" + str(rng.choice([16000, 15999, 16001, 128000, 65536, 1])) + rng.choice(["", "u", "x", "ux"])
-    return "ch" + str(rng.randrange(1, 70000)) + rng.choice(["u", "x", ""])
+    return "ch" + str(rng.randrange(1, 70000)) + rng.choice(["u", "x", "", "p", "pu", "px", "q"])
 
 
 # ------------------------------------------------------------------ generator
@@ -393,7 +396,7 @@ def range_case(rng, n, spec, ext=b"bin", seed=None):
 
 
 def gen_ranges_small(rng, sizes):
-    """every range [b,e] with 0 <= b, e <= n+1 (explicit e = 0 is the known finding range-end-zero and is left out),
+    """every range [b,e] with 0 <= b, e <= n+2 (a last position past the end is served to the end; explicit e = 0 is the known finding range-end-zero and is left out),
     open-ended forms, for files of the given sizes"""
     cases = []
     for n in sizes:
@@ -422,7 +425,13 @@ def gen_ranges_large(rng, count):
         cases.append([range_case(rng, n, b"bytes=%d-%d" % (b, e))])
     # positions that do not fit an int, suffix ranges on large files
     for spec in (b"bytes=4294967296-4294967300", b"bytes=5-4294967301", b"bytes=4294967301-", b"bytes=2147483648-2147483650",
-                 b"bytes=%d-%d" % (rng.randrange(1 << 32, 1 << 40), rng.randrange(1 << 32, 1 << 40)), b"bytes=-4294967296"):
+                 b"bytes=%d-%d" % (rng.randrange(1 << 32, 1 << 40), rng.randrange(1 << 32, 1 << 40)), b"bytes=-4294967296",
+                 # beyond 2^63 and 2^64: no wrap of the 64-bit conversion either
+                 b"bytes=18446744073709551621-18446744073709551623", b"bytes=5-18446744073709551623", b"bytes=18446744073709551621-",
+                 b"bytes=-18446744073709551621", b"bytes=9223372036854775813-9223372036854775815",
+                 b"bytes=%d-%d" % ((1 << 64) + rng.randrange(0, 20), (1 << 64) + rng.randrange(0, 40)),
+                 b"bytes=%d-%d" % (rng.randrange(0, 20), (1 << rng.choice([63, 64, 65, 70, 128])) + rng.randrange(0, 20)),
+                 b"bytes=999999999999999999-", b"bytes=5-999999999999999999"):
         cases.append([range_case(rng, 20, spec)])
     for _ in range(max(2, count // 6)):
         n = rng.choice([16000, 16001, 48001, 128001, rng.randrange(1000, 300000)])
@@ -507,6 +516,10 @@ def gen_raw(rng, nmax=3000):
     parts = []
     for j in range(k):
         h, bs, fr, n = raw_request(rng, j == k - 1, pipelined=(mode == "p"), nmax=nmax)
+        if "q" in fr and (mode == "p" or b"expect" in h.lower()):
+            # a refused chunk size makes the server close with unread input: TCP answers with a reset, which may destroy
+            # responses (or the interim 100) the raw peer has not read yet — only sent where nothing is pending
+            fr = fr.replace("q", "")
         total = len(h) + n + (n // 10 + 40 if fr != "cl" else 0)
         cuts = rcuts(rng, min(total, len(h) + 200))
         pk = rng.choice(["n", "b", "t", "f", "s"])
@@ -551,6 +564,38 @@ def gen_redirect(rng):
     # a loop: four requests, then 421
     out.append("xchg " + req(b"GET", b"/loop", "SF", [], "n") + " " + plan(code, [], "r", hexs(b"/never"), "-"))
     out.append("xchg " + req(b"GET", b"/x", "SF", [], "n") + " " + plan(303, [(b"Location", b"/elsewhere")], "n"))
+    return out
+
+
+REL_BASES = [b"/a/d/e", b"/a/d/e?x=1", b"/", b"/a", b"/dir/", b"/a/b/c/d?q=1&r=2"]
+REL_REFS = [b"/b", b"b", b"b/c", b"../c?x=1", b"./g", b"../g", b"../../g", b"../../../g", b"?y=2", b"g/", b".", b"..", b"./", b"../",
+            b"/x/./y/../z", b"g?y=1", b"g/../h", b"//@/net/p", b"http://@/abs?z=1", b"b%20c/d", b"g/./h/../i/"]
+
+
+def gen_redirect_rel(rng):
+    """a redirection whose Location is a relative reference (RFC 7231 7.1.2), one without Location, and the same not followed"""
+    import urllib.parse
+    out = []
+    base = "http://" + AUTHORITY.decode()
+    for rel in rng.sample(REL_REFS, 6) + [None]:
+        code = rng.choice([301, 302, 307, 308])
+        target = rng.choice(REL_BASES)
+        body = gspec(rng, rng.choice([0, 5, 300]))
+        if rel is None:
+            loc, reltok = b"/never", "-"
+        else:
+            j = urllib.parse.urljoin(base + target.decode(), rel.replace(b"@", AUTHORITY).decode())
+            assert j.startswith(base)
+            loc, reltok = j[len(base):].encode(), hexs(rel)
+            if loc == target:
+                continue
+        flags = rng.choice(["SF", "DF", "SF", "SN"])
+        hs = rheaders(rng, rng.choice([0, 2]))
+        if rng.randrange(3) == 0:
+            out.append("xchg " + req(b"POST", target, flags, hs, "b", gspec(rng, 9)) + " " + plan(code, [], "R", hexs(loc), reltok, body))
+        else:
+            out.append("xchg " + req(b"GET", target, flags, hs, "n") + " " + plan(code, rheaders(rng, 1), "R", hexs(loc), reltok, body))
+    out.append("xchg " + req(b"GET", b"/x", "SF", [], "n") + " " + plan(303, [], "R", hexs(b"/never"), hexs(b"/elsewhere"), "-"))
     return out
 
 
@@ -685,6 +730,8 @@ def gen(rng, tier):
         cases.append(gen_options(rng))
     for _ in range(4 if quick else 40):
         cases.append(gen_redirect(rng))
+    for _ in range(3 if quick else 60):
+        cases.append(gen_redirect_rel(rng))
     cases += gen_long_lines(rng)
     for _ in range(4 if quick else 40):
         cases.append(gen_upload(rng))
@@ -772,7 +819,7 @@ def distribution(cases):
                     nh = int(t[j][1:])
                     kind = t[j + 1 + 2 * nh]
                     key = {"n": "plan:none", "b": "plan:bytes/text", "t": "plan:bytes/text", "j": "plan:json", "f": "plan:file",
-                           "s": "plan:stream", "S": "plan:stream", "r": "plan:redirect"}.get(kind)
+                           "s": "plan:stream", "S": "plan:stream", "r": "plan:redirect", "R": "plan:redirect"}.get(kind)
                     if key:
                         branch[key] += 1
             if t[0] in ("xchg", "cwire", "big"):
@@ -832,8 +879,9 @@ LEVEL_TEXT = ("Proved in Lean 4 about the executable model AslModel.HttpFrame (t
               "(arbitrary answers of available()) and whatever follows; serveStep_exact / keepalive_seq — any sequence of such requests "
               "on one connection kept alive by HTTP/1.1 or Connection: keep-alive (pipelined or not, OPTIONS and chunked requests "
               "included) is served as the independent exchanges, the reader consuming exactly one message per turn; response_roundtrip / "
-              "stream_roundtrip / file_response_roundtrip — for every status code the client returns as is (not the interim 100, not "
-              "301/302/307/308 which Http::request follows), every handler dictionary and body below 2^31 bytes (put(), streamed parts, "
+              "stream_roundtrip / file_response_roundtrip — for every response the client returns as is (not the interim 100, not a "
+              "301/302/307/308 that names a Location, which Http::request follows; one without Location is returned like any other: "
+              "redirect_without_target_returned), every handler dictionary and body below 2^31 bytes (put(), streamed parts, "
               "or a file range accepted by putFile with its announced length and Content-Range) the client's reader returns exactly the "
               "code, the protocol, the body bytes and the VERY SAME header dictionary (norm_canon: what setHeader builds is stored "
               "unchanged); exchange_roundtrip — the composition client serialize -> server read -> handler (any headers/code/put body) -> "
@@ -841,13 +889,15 @@ LEVEL_TEXT = ("Proved in Lean 4 about the executable model AslModel.HttpFrame (t
               "dictionary; continue_skipped — a response after the interim 100 Continue is read as if alone; empty_header_kept — a header "
               "that travels with an empty value is stored (present, empty) by the reader; chunked_request_roundtrip — a client asked "
               "to send chunked sends no length, chunks of the send block and the last chunk, and the server reads exactly its body; "
-              "suffix_range_spec — Range: bytes=-k is the last k bytes; "
+              "suffix_range_spec — Range: bytes=-k is the last k bytes; redirect_target_rfc3986 / redirect_target_absolute — the URL "
+              "the client goes to for a redirection is the Location itself when it has a scheme and else its resolution against the "
+              "request URL, equal to RFC 3986 on all 42 examples of its section 5.4 (kernel-evaluated); "
               "length_framing_transparent / file_blocks_transparent — block boundaries (any block size > 0; the 128000 / 16000 of the "
               "source are regenerated on every run) add or drop no byte; sender_chunked_conforms / reader_accepts_rfc_chunked — what "
               "write(part) emits is, and readBody decodes every, chunked body of the RFC 7230 grammar RESTRICTED to: no chunk "
-              "extensions, no trailer fields, last-chunk written as the single digit 0, size lines of 1*HEXDIG in either case (leading "
-              "zeros allowed) of at most 16000 bytes, payload below 2^31 bytes; header_lookup_case_insensitive; range_spec — putFile's "
-              "range arithmetic; partial_io_complete / partial_read_complete — the blocking Socket loops under every partial-transfer "
+              "extensions, no trailer fields, last-chunk written as the single digit 0, size lines of 1 to 8 HEXDIG in either case (leading "
+              "zeros allowed; the repaired reader refuses longer ones), payload below 2^31 bytes; header_lookup_case_insensitive; range_spec — putFile's "
+              "range arithmetic (first position inside the file, last position cut to the end of the file: RFC 7233 2.1); partial_io_complete / partial_read_complete — the blocking Socket loops under every partial-transfer "
               "schedule; interleaving_local / interleaving_independent — in the model, where a handler turn is atomic and touches only its "
               "own connection, every schedule gives each connection the answers of serving it alone. The model is tied to the real "
               "library on every run by the correspondence check over loopback TCP (real client, real server, raw-socket peers on either "
@@ -866,18 +916,20 @@ LEVEL_NOTE = ("Trusted: Lean kernel; the regex translator of the two block-size 
               "enumerated. (2) bodies of JSON values (C05's encoder: only the transport of the encoded text is checked, oracle J1) and "
               "multipart uploads (random boundary: oracle U1). (3) the target -> path/query decoding (splitTarget is returned as is by "
               "the request theorems; Url::decode/parseQuery are C15's/C09's; K with upper/lower/mixed-case escapes against python's "
-              "unquote) and the Range header text parser (range_spec / file_response_roundtrip start from the integers b, e); redirect "
-              "following, OPTIONS/405/whole-file/416 post-processing of HttpServer::serve are in the model and K-validated only. "
+              "unquote) and the Range header text parser (range_spec / file_response_roundtrip start from the integers b, e); the loop "
+              "of redirect following (at most 4 hops, then 421; only the target of a hop has theorems), OPTIONS/405/whole-file/416 post-processing of HttpServer::serve are in the model and K-validated only. "
               "(4) bodies above 300 KiB (up to 8 MiB) are checked by digest oracle only. (5) exchange_roundtrip assumes no Expect "
               "header (with Expect: 100-continue the interim answer is in serveStep_exact's wire and continue_skipped covers the "
-              "client side; their composition is K-validated). Outside the modelled domain (never generated, the repaired readBody "
-              "closes the connection on them): Content-Length with a sign, other characters or more than 10 digits; chunk-size lines "
-              "with a sign. Hypotheses of the theorems: as stated above; user headers name neither Content-Length nor "
-              "Transfer-Encoding; sizes below 2^31 (int). Deviations of asl recorded, not defects of this property as worded: a range "
-              "whose last position is >= the file size is answered 416 instead of being clamped; `bytes=-5` is read as 0-5; truncated "
-              "requests are dropped. Known findings: range-end-zero, chunked-stream-not-terminated. Thirteen defects of this property were "
-              "repaired (fixed: lines); eight of them were found by audits / defect hunts, not by this check, and the check was "
-              "extended until it catches each on the pre-fix tree with a concrete replay (second hunt: a Dic given to the request "
+              "client side; their composition is K-validated). Refused framing (the repaired readBody gives the connection up, the server does not call the handler: in the "
+              "model, serveStep): chunk-size lines of 9 digits are generated (framing flag q) and compared; Content-Length with a sign, "
+              "other characters or more than 10 digits and chunk-size lines with a sign are not generated here (C09 does). Hypotheses of the theorems: as stated above; user headers name neither Content-Length nor "
+              "Transfer-Encoding; sizes below 2^31 (int). Deviation of asl recorded, not a defect of this property as worded: truncated "
+              "requests are dropped. Known findings: range-end-zero, chunked-stream-not-terminated. Seventeen defects of this property were "
+              "repaired (fixed: lines); twelve of them were found by audits / defect hunts, not by this check, and the check was "
+              "extended until it catches each on the pre-fix tree with a concrete replay (third hunt: Range positions of 19+ digits "
+              "wrapped modulo 2^64 — such positions generated; a redirection with a relative Location or none gave code 0 — new plan "
+              "kind R sends the Location text verbatim, judged by python's urljoin; a last position past the end of the file was answered "
+              "416 — the reference now cuts it to the end as RFC 7233 says, every such range on small files generated; second hunt: a Dic given to the request "
               "constructor was shared and written into — new flag C of xchg keeps, inspects and reuses the caller's Dic, with 3/6/12 "
               "entries; header names in a Dic were case-sensitive on the client — lower/mixed-case names and put(Var) with a form "
               "content type; Range positions modulo 2^32 and bytes=-k — generated and judged by the RFC 7233 reference; the client "
@@ -885,7 +937,9 @@ LEVEL_NOTE = ("Trusted: Lean kernel; the regex translator of the two block-size 
               "name in the generator); an HttpRequest object used twice sent only its body (no op reused a request object: flag digit "
               "of xchg now does); a header with an empty value was dropped by the reader (the model had the same "
               "setHeader and the generator produced no empty values). The model follows C09's repairs of the shared reader "
-              "(obs-fold 350c8ee, Content-Length 00 d626376, Transfer-Encoding compared case-insensitively / last coding 7dcf721).")
+              "(obs-fold 350c8ee, Content-Length 00 d626376, Transfer-Encoding compared case-insensitively / last coding 7dcf721, "
+              "chunk-size line validation 4dbedbe, CRLF required after chunk data d0ace7d, no handler call once the reader gave the "
+              "connection up 5314fb5 — the last one was missing in the model until the q framing flag produced such input).")
 
 
 # ------------------------------------------------------------------ independent oracle (python stdlib; judged on the implementation alone)
@@ -937,13 +991,46 @@ def _te_chunked(v):
     return v is not None and v.lower().split(b",")[-1].strip(b" \t\r\n") == b"chunked"
 
 
+AUTHORITY = b"127.0.0.1:0"
+
+
+def _xchg_tokens(method, target, flags, rh, rk, rbody, code, ph, pk, pargs):
+    t = ["xchg", hexs(method), hexs(target), flags, H(rh), rk]
+    if rk != "n":
+        t.append("x" + rbody.hex() if rbody else "-")
+    return " ".join(t + ["P", str(code), H(ph), pk] + list(pargs)).split()
+
+
+def _ref_redirect_rel(method, target, flags, rh, rk, rbody, code0, ph, pargs):
+    """kind R: the handler answers `code0` with `Location: rel` (verbatim; none when rel is '-') and the body "moved",
+    except for the target `loc`, which it answers 200 + body.  Expected by RFC 7231 7.1.2 / RFC 3986 5.2 (python's
+    urljoin): a client that follows goes to urljoin(request URL, rel); reaching `loc` it must see exactly what a direct
+    request for `loc` sees; a client that does not follow (not asked to, 303, no Location) sees the redirection itself."""
+    import urllib.parse
+    loc = unhex(pargs[0])
+    rel = b"" if pargs[1] == "-" else unhex(pargs[1]).replace(b"@", AUTHORITY)
+    follows = flags[1] == "F" and code0 in (301, 302, 307, 308) and rel != b""
+    if target == loc:
+        return None
+    if not follows:
+        ph2 = list(ph) + ([(b"Location", rel)] if rel else [])
+        return _ref_xchg(_xchg_tokens(method, target, flags, rh, rk, rbody, code0, ph2, "b", ["x" + b"moved".hex()]))
+    base = b"http://" + AUTHORITY
+    joined = urllib.parse.urljoin((base + target).decode("latin-1"), rel.decode("latin-1")).encode("latin-1")
+    if not joined.startswith(base) or joined[len(base):] != loc:
+        return None                      # another host, or a chain of redirections: no opinion
+    return _ref_xchg(_xchg_tokens(method, loc, flags, rh, rk, rbody, 200, ph, "b", [pargs[2]]))
+
+
 def _ref_xchg(t):
     import urllib.parse
     method, target, flags, rh, rk, rbody, code0, ph, pk, pargs = _parse_xchg(t)
+    if pk == "R" and rk not in ("j", "u") and method != b"OPTIONS":
+        return _ref_redirect_rel(method, target, flags, rh, rk, rbody, code0, ph, pargs)
     if rk in ("j", "u") or pk in ("j", "r", "S") or method == b"OPTIONS":
         return None
-    if flags[1] == "F" and code0 in (301, 302, 307, 308):
-        return None
+    if flags[1] == "F" and code0 in (301, 302, 307, 308) and any(cap(n) == b"Location" and v for n, v in ph):
+        return None                      # followed (kind R has its own reference); without Location it is the response (9644a87)
     res = target.split(b"#", 1)[0]
     pathenc, _, qs = res.partition(b"?")
     path = urllib.parse.unquote_to_bytes(pathenc)
@@ -1015,9 +1102,8 @@ def _ref_xchg(t):
                         b, e = (max(0, n - k), n - 1) if (k > 0 and n > 0) else (1, 0)
                     else:
                         b = int(m.group(1))
-                        e = int(m.group(2)) if m.group(2) else n - 1
-                        if m.group(2) and e >= n and b < n:
-                            return None      # RFC would clamp to n-1; asl answers 416 (documented, LEVEL_NOTE)
+                        # a last position at or past the end means "to the end" (RFC 7233 2.1; repaired by 37f2453)
+                        e = min(int(m.group(2)), n - 1) if m.group(2) else n - 1
                     if b <= e < n:
                         body = content[b:e + 1]
                         code = 206
@@ -1062,8 +1148,8 @@ def _ref_cread(t):
     head = unhex(t[1])
     body = body_of(t[2])
     fr = t[3]
-    if "z" in fr:
-        return None
+    if "z" in fr or "q" in fr:
+        return None              # q: 9-digit chunk sizes, legal hex but refused by asl's reader (documented)
     stream = _frame(head, body, fr)
     try:
         r = http.client.HTTPResponse(_FakeSock(stream))
@@ -1090,7 +1176,8 @@ def _frame(head, body, fr):
     upper = "u" in spec
     ext = "x" in spec
     noend = "z" in spec
-    spec = spec.replace("u", "").replace("x", "").replace("z", "")
+    pad = 9 if "q" in spec else 8 if "p" in spec else 0
+    spec = spec.replace("u", "").replace("x", "").replace("z", "").replace("p", "").replace("q", "")
     sizes = [int(x) for x in spec.split(",")] if spec else []
     out = bytearray(head)
     pos = 0
@@ -1099,7 +1186,7 @@ def _frame(head, body, fr):
         n = sizes[k % len(sizes)] if sizes else len(body)
         n = max(n, 1)
         n = min(n, len(body) - pos)
-        hx = (b"%X" if upper else b"%x") % n
+        hx = ((b"%X" if upper else b"%x") % n).rjust(pad, b"0")
         out += hx + (b";a=b" if ext else b"") + b"\r\n" + body[pos:pos + n] + b"\r\n"
         pos += n
         k += 1
